@@ -28,10 +28,11 @@ PARTIAL = [
     "binary64 rounding of float() (values at hand are exact), int() strings above 4300 digits; os.path.normpath is "
     "modelled for trailing slashes only; lines are assumed free of '\\r' (universal-newline translation not modelled); "
     "text encodings",
-    "roundtrip_files holds for prefixes without white space that are absolute or have no directory part; for a relative "
-    "prefix with a directory part the exported .aux file does not lead back to the data files "
-    "(theorem relative_prefix_with_directory_lost; the real code raises RuntimeError - reported as a finding, the harness "
-    "only exports to absolute prefixes)",
+    "roundtrip_files holds for every prefix (absolute, relative with directories, bare) whose base name has no white "
+    "space and whose directory part does not end in a doubled '/' (the model compares paths as strings; os.path.normpath "
+    "is not modelled); it covers reading by .aux path and by bare prefix - reading by directory (os.listdir) is covered by "
+    "the `rel` and `tmut` correspondence streams and the direct oracle only.  Before the F18 fix a relative prefix with a "
+    "directory part did not read back (Legacy witness relative_prefix_with_directory_lost)",
     "load_write_placement assumes pairwise distinct cell names that are single tokens without ':' not starting with '#' "
     "(true for the names export.cpp writes); on a TypeError from a cell without a line the partial update of x/y is not "
     "observable in the model (result is the exception only)",
